@@ -460,8 +460,12 @@ class Provider:
         self.fresh = fresh
         self.calls = 0
 
+    hook = None   # thread runs: a rendezvous INSIDE get_dltype_scope (every thread is consulting the provider at the same time)
+
     def get_dltype_scope(self) -> dict[str, int]:
         self.calls += 1
+        if self.hook is not None:
+            self.hook()
         return dict(self.scope) if self.fresh else self.scope
 
 
